@@ -1287,6 +1287,21 @@ class FunctionScope(Scope):
             ]
         )
 
+    def snapshot_loop_exit(self) -> None:
+        """Record the definitions that are live at a break or continue statement.
+
+        Code that follows the statement in the same block is unreachable, but it is
+        still visited; without the snapshot its assignments would replace the
+        definitions that actually leave the loop.
+
+        """
+        self.current_loop_scopes.append(
+            {
+                key: list(nodes)
+                for key, nodes in self.name_to_current_definition_nodes.items()
+            }
+        )
+
     def get_combined_scope(
         self, scopes: Iterable[SubScope], *, ignore_leaves_scope: bool = False
     ) -> SubScope:
